@@ -607,13 +607,35 @@ func TestC12Framing(t *testing.T) {
 		if declared < 0 {
 			declared = 0
 		}
-		c12Raw.Set(fmt.Sprintf("Content-Length: %d\r\n", declared), body)
+		framing := []string{"content_length", "content_length", "chunked", "until_close"}[rapid.IntRange(0, 3).Draw(t, "framing")]
+		if framing == "content_length" {
+			c12Raw.Set(fmt.Sprintf("Content-Length: %d\r\n", declared), body)
+		} else {
+			// no Content-Length at all: the body's size is only known once it has been read
+			if sz := []int{0, 70 << 10, 3 << 20, 6 << 20}[rapid.IntRange(0, 3).Draw(t, "unframed_size")]; sz > len(body) {
+				body = append(body, make([]byte, sz-len(body))...)
+			}
+			declared = int64(len(body))
+			if framing == "chunked" {
+				var enc []byte
+				for p := 0; p < len(body); p += 32 << 10 {
+					q := min(len(body), p+32<<10)
+					enc = append(enc, fmt.Sprintf("%x\r\n", q-p)...)
+					enc = append(enc, body[p:q]...)
+					enc = append(enc, "\r\n"...)
+				}
+				enc = append(enc, "0\r\n\r\n"...)
+				c12Raw.Set("Transfer-Encoding: chunked\r\n", enc)
+			} else {
+				c12Raw.Set("", body)
+			}
+		}
 		r, err := ech.NewResolver(c12Raw.URL)
 		if err != nil {
 			t.Fatalf("harness: %v", err)
 		}
 		r.SetCacheSize(0)
-		rp := map[string]any{"declared_content_length": declared, "body": hx(body)}
+		rp := map[string]any{"framing": framing, "declared_content_length": declared, "body_len": len(body), "body_head": hx(body[:min(len(body), 600)])}
 		var ms0, ms1 runtime.MemStats
 		var rerr error
 		watch("C12", rp, func() {
@@ -635,12 +657,12 @@ func TestC12Framing(t *testing.T) {
 		}
 		// one Resolve = a handful of DoH exchanges; a DNS message is at most 65535 bytes
 		if alloc := ms1.TotalAlloc - ms0.TotalAlloc; alloc > 16<<20 {
-			ev.Violation(t, "C12", rp, "Resolve allocated %d bytes while consuming a DoH response that declares Content-Length %d (body %d bytes)", alloc, declared, len(body))
+			ev.Violation(t, "C12", rp, "Resolve allocated %d bytes while consuming a DoH response (framing %s, declared/actual length %d, %d body bytes sent)", alloc, framing, declared, len(body))
 		}
 		if declared > 65535 && rerr == nil {
-			ev.Violation(t, "C12", rp, "Resolve accepted a DoH response declaring %d bytes (a DNS message is at most 65535)", declared)
+			ev.Violation(t, "C12", rp, "Resolve accepted a DoH response of %d bytes (framing %s; a DNS message is at most 65535)", declared, framing)
 		}
-		rec.Case(fmt.Sprintf("framing|%d|%d", declared, len(body)), declared != int64(len(body)), []string{"doh_framing", fmt.Sprintf("declared_gt_64k:%v", declared > 65535)}, func() any {
+		rec.Case(fmt.Sprintf("framing|%s|%d|%d", framing, declared, len(body)), declared != int64(len(body)) || framing != "content_length", []string{"doh_framing", "framing:" + framing, fmt.Sprintf("declared_gt_64k:%v", declared > 65535)}, func() any {
 			return map[string]any{"kind": "doh_framing", "declared": declared, "body_len": len(body), "err": fmt.Sprint(rerr)}
 		})
 	})
